@@ -85,6 +85,36 @@ def run(prop, out_path, repo='/repo'):
             ok = ok and good
         finally:
             shutil.rmtree(d, ignore_errors=True)
+    # behaviour-preserving refactorings kept under /verif/refactors (delivered by sub-agents, confirmed to build and
+    # pass the suite): this property's check must stay quiet on every one of them
+    from concurrent.futures import ThreadPoolExecutor
+    def replay_refactor(rd):
+        name = 'refactoring ' + os.path.basename(rd)
+        d = tempfile.mkdtemp(prefix='soyvar.', dir='/tmp')
+        try:
+            subprocess.run(['rsync', '-a', '--exclude', '.git', repo + '/', d + '/'], check=True)
+            pr = subprocess.run(['patch', '-p1', '-s', '--no-backup-if-mismatch', '-i', rd + '/patch.diff'], cwd=d, capture_output=True, text=True)
+            if pr.returncode != 0:
+                return {'name': name, 'status': 'skipped (patch does not apply to this tree)'}
+            b = subprocess.run(['go', 'build', './...'], cwd=d, capture_output=True, text=True, env=env)
+            if b.returncode != 0:
+                return {'name': name, 'status': 'skipped (patched tree does not compile)'}
+            r = subprocess.run(['/verif/bin/soylint', 'check', '-prop', prop, '-repo', d, '-no-evidence', '-out', '/verif'],
+                               capture_output=True, text=True, env=env)
+            found = set(re.findall(r'^(?:VIOLATED|UNDECIDED) (\S+) (.*?) at ', r.stdout, re.M)) - base_v
+            fail = 'ANALYSIS-FAILURE' in r.stdout and 'ANALYSIS-FAILURE' not in base
+            good = not found and not fail
+            return {'name': name, 'kind': 'must-stay-quiet (refactoring)', 'status': 'quiet' if good else 'FALSE ALARM',
+                    'reported': sorted(' '.join(x) for x in found)[:6]}
+        finally:
+            shutil.rmtree(d, ignore_errors=True)
+    rds = sorted(glob.glob('/verif/refactors/*-*'))
+    if rds:
+        with ThreadPoolExecutor(max_workers=6) as ex:
+            for res in ex.map(replay_refactor, rds):
+                results.append(res)
+                if res['status'] == 'FALSE ALARM':
+                    ok = False
     summary = {
         'variants_fired': sum(1 for r in results if r['status'] == 'fired'),
         'variants_quiet': sum(1 for r in results if r['status'] == 'quiet'),
